@@ -329,10 +329,12 @@ func growSymIDTable(prev *huffTable, prevCodeLen, numSyms int) (*huffTable, int)
 		t.assignCodes()
 		return t, cl
 	}
+	grownFrom := len(prev.Lines)
 	for k := len(prev.Lines); k < numSyms; k++ {
 		prev.Lines = append(prev.Lines, huffLine{RangeLow: int32(k), PrefLen: cl})
 		prev.codes = append(prev.codes, uint32(k))
 	}
+	prev.indexLines(grownFrom)
 	return prev, cl
 }
 
